@@ -1267,7 +1267,14 @@ void AbstractDOMParser::XMLDecl(const   XMLCh* const version
                                 , const XMLCh* const actualEncStr)
 {
     fDocument->setXmlStandalone(XMLString::equals(XMLUni::fgYesString, standalone));
-    fDocument->setXmlVersion(version);
+    //  A document whose VersionNum is 1.x, x other than 0 or 1, is processed
+    //  as an XML 1.0 document (XML 1.0 5th Ed., 2.8); DOMDocument only knows
+    //  "1.0" and "1.1" and throws NOT_SUPPORTED_ERR for anything else.
+    if (version && XMLString::startsWith(version, XMLUni::fgVersion1)
+        && !XMLString::equals(version, XMLUni::fgVersion1_1))
+        fDocument->setXmlVersion(XMLUni::fgVersion1_0);
+    else
+        fDocument->setXmlVersion(version);
     fDocument->setXmlEncoding(encoding);
     fDocument->setInputEncoding(actualEncStr);
 }
